@@ -378,7 +378,7 @@ macro_rules! meta_dispatch {
     };
 }
 
-fn run_meta<T: FromMeta + Observe>(entry: &MetaEntry, meta: &syn::Meta) -> Result<Option<V>, darling::Error> {
+pub fn run_meta<T: FromMeta + Observe>(entry: &MetaEntry, meta: &syn::Meta) -> Result<Option<V>, darling::Error> {
     match entry {
         MetaEntry::FromMeta => T::from_meta(meta).map(|v| Some(v.observe())),
         MetaEntry::FromList => match meta {
@@ -638,6 +638,9 @@ pub type RBU = BTreeMap<String, u8>;
 
 /// Run a FromMeta-family entry point of the named receiver. `None` = unknown receiver name.
 pub fn run_meta_receiver(name: &str, entry: &MetaEntry, meta: &syn::Meta) -> Option<Result<Option<V>, darling::Error>> {
+    if let Some(r) = crate::gen_corpus::run_gen_meta(name, entry, meta) {
+        return Some(r);
+    }
     meta_dispatch!(
         name,
         entry,
@@ -1142,6 +1145,9 @@ pub enum ElemInput<'a> {
 pub fn run_elem_receiver(name: &str, input: &ElemInput) -> Option<Result<V, darling::Error>> {
     fn ob<T: Observe>(r: darling::Result<T>) -> Result<V, darling::Error> {
         r.map(|v| v.observe())
+    }
+    if let Some(r) = crate::gen_corpus::run_gen_elem(name, input) {
+        return Some(r);
     }
     Some(match (name, input) {
         ("FR1", ElemInput::Field(f)) => ob(FR1::from_field(f)),
